@@ -30,7 +30,7 @@ PROPS_T = {
         + " C05 judges a step when it has at least one quantized operand and its float shadow is a valid program: exact / 2-ulp / one-output-step / accumulation-bound "
         "comparison chosen from the operation, 'does not raise' except the two documented refusals. A fault-aborted step counts as not executed (fault batch: the steps around it are judged).",
         "assumptions": ASSUME_T,
-        "wall_cap": {"quick": 900, "thorough": 5400},
+        "wall_cap": {"quick": 2400, "thorough": 10800},
         "shrink_budget": 20,
         "batches": {
             "quick": [
@@ -52,7 +52,7 @@ PROPS_T = {
         "(codes bit-equal after clone/detach/to(device)/deepcopy/contiguous/state_dict round trip; to(dtype): codes bit-equal and scale == old scale cast). "
         "Engine L adds the lifecycle coverage (module weights after freeze / load / restart / deepcopy / .to) separately.",
         "assumptions": ASSUME_T,
-        "wall_cap": {"quick": 900, "thorough": 5400},
+        "wall_cap": {"quick": 2400, "thorough": 10800},
         "shrink_budget": 20,
         "batches": {
             "quick": [
